@@ -10,6 +10,7 @@ import (
 	"math/big"
 	"strconv"
 	"strings"
+	"sync"
 
 	ophosttypes "github.com/initia-labs/OPinit/x/ophost/types"
 )
@@ -391,6 +392,159 @@ func (g *c17Gen) denom() {
 	g.add("denom", fmt.Sprintf("FDenom %s %s", coqU(b), coqStr(d)), fmt.Sprintf("L2Denom(%d, %q)", b, d), []byte(out), []byte(indepDenom(b, d)))
 }
 
+// denomDense: every length 100..140 (around the sdk's 128-character limit and any fixed buffer
+// sized from it), valid denom characters, plus pairs that share all but the last character and
+// pairs where one is the other plus one character.
+func (g *c17Gen) denomDense() {
+	const chars = "abcdefghijklmnopqrstuvwxyzABCDEFGHIJKLMNOPQRSTUVWXYZ0123456789/:._-"
+	one := func(b uint64, d string) {
+		out := ophosttypes.L2Denom(b, d)
+		g.add("denom", fmt.Sprintf("FDenom %s %s", coqU(b), coqStr(d)), fmt.Sprintf("L2Denom(%d, %q)", b, d), []byte(out), []byte(indepDenom(b, d)))
+	}
+	for n := 100; n <= 140; n++ {
+		bs := make([]byte, n)
+		bs[0] = chars[g.r.Intn(52)]
+		for i := 1; i < n; i++ {
+			bs[i] = chars[g.r.Intn(len(chars))]
+		}
+		b := g.u64()
+		d := string(bs)
+		one(b, d)
+		// same length, same first n-1 characters
+		bs2 := append([]byte{}, bs...)
+		bs2[n-1] = chars[(strings.IndexByte(chars, bs[n-1])+1+g.r.Intn(len(chars)-1))%len(chars)]
+		d2 := string(bs2)
+		one(b, d2)
+		// one character longer
+		d3 := d + string(chars[g.r.Intn(len(chars))])
+		one(b, d3)
+		o1, o2, o3 := ophosttypes.L2Denom(b, d), ophosttypes.L2Denom(b, d2), ophosttypes.L2Denom(b, d3)
+		if o1 == o2 || o1 == o3 || o2 == o3 {
+			g.rep.Violate(Violation{Case: len(g.cases), What: fmt.Sprintf("different L1 denoms of length %d/%d map to the same L2 denom", n, n+1), Sig: "C17:denom-not-injective",
+				Ops: []string{fmt.Sprintf("L2Denom(%d, %q)", b, d), fmt.Sprintf("L2Denom(%d, %q)", b, d2), fmt.Sprintf("L2Denom(%d, %q)", b, d3)}})
+		}
+	}
+}
+
+// ---- concurrency: the functions are pure, so calls running at the same time must not see each other ----
+// A few hundred inputs are evaluated sequentially, then the same inputs by several goroutines
+// at once (released together, each starting at a different offset, several rounds); every
+// concurrent result must equal the sequential one.  This SAMPLES interleavings of the Go
+// scheduler; it does not enumerate them.
+func c17Concurrent(rep *Report, seed uint64, tier string) {
+	r := NewRng(seed*104729 + 3)
+	nIn, workers, rounds := 400, 12, 10
+	if tier == "thorough" {
+		nIn, workers, rounds = 1200, 16, 12
+	}
+	type input struct {
+		kind   string
+		leaf   [32]byte
+		ps     [][]byte
+		a, b   []byte
+		u1, u2 uint64
+		s1, s2 string
+		ver    byte
+	}
+	ins := make([]input, nIn)
+	g := &c17Gen{rep: NewReport("scratch", 0, ""), r: r}
+	for i := range ins {
+		switch i % 10 {
+		case 0, 1, 2, 3: // roots: most of the time inside GenerateNodeHash
+			in := input{kind: "root"}
+			copy(in.leaf[:], r.Bytes(32))
+			for j, n := 0, 4+r.Intn(9); j < n; j++ {
+				in.ps = append(in.ps, r.Bytes(32))
+			}
+			ins[i] = in
+		case 4, 5, 6:
+			a, b := g.nodePair()
+			ins[i] = input{kind: "node", a: a, b: b}
+		case 7:
+			ins[i] = input{kind: "leaf", u1: g.u64(), u2: g.u64(), s1: g.str(), s2: g.str()}
+		case 8:
+			ins[i] = input{kind: "out", ver: byte(r.Intn(256)), a: r.Bytes(32), b: r.Bytes(32)}
+		default:
+			ins[i] = input{kind: "denom", u1: g.u64(), s1: g.str()}
+		}
+	}
+	eval := func(in *input) (out string) {
+		defer func() {
+			if p := recover(); p != nil {
+				out = fmt.Sprintf("panic: %v", p)
+			}
+		}()
+		switch in.kind {
+		case "root":
+			x := ophosttypes.GenerateRootHashFromProofs(in.leaf, in.ps)
+			return string(x[:])
+		case "node":
+			x := ophosttypes.GenerateNodeHash(in.a, in.b)
+			return string(x[:])
+		case "leaf":
+			x := ophosttypes.GenerateWithdrawalHash(in.u1, in.u2, in.s1, in.s2, in.s1, in.u2)
+			return string(x[:])
+		case "out":
+			x := ophosttypes.GenerateOutputRoot(in.ver, in.a, in.b)
+			return string(x[:])
+		default:
+			return ophosttypes.L2Denom(in.u1, in.s1)
+		}
+	}
+	describe := func(in *input) string {
+		switch in.kind {
+		case "root":
+			return fmt.Sprintf("GenerateRootHashFromProofs(%x, %v)", in.leaf, hexList(in.ps))
+		case "node":
+			return fmt.Sprintf("GenerateNodeHash(%x, %x)", in.a, in.b)
+		case "leaf":
+			return fmt.Sprintf("GenerateWithdrawalHash(%d, %d, %q, %q, %q, %d)", in.u1, in.u2, in.s1, in.s2, in.s1, in.u2)
+		case "out":
+			return fmt.Sprintf("GenerateOutputRoot(%d, %x, %x)", in.ver, in.a, in.b)
+		default:
+			return fmt.Sprintf("L2Denom(%d, %q)", in.u1, in.s1)
+		}
+	}
+	seq := make([]string, nIn)
+	for i := range ins {
+		seq[i] = eval(&ins[i])
+	}
+	reported := 0
+	for round := 0; round < rounds; round++ {
+		res := make([][]string, workers)
+		start := make(chan struct{})
+		var wg sync.WaitGroup
+		for w := 0; w < workers; w++ {
+			res[w] = make([]string, nIn)
+			wg.Add(1)
+			go func(w int) {
+				defer wg.Done()
+				<-start
+				off := (w*nIn/workers + round*17) % nIn
+				for j := 0; j < nIn; j++ {
+					i := (off + j) % nIn
+					res[w][i] = eval(&ins[i])
+				}
+			}(w)
+		}
+		close(start)
+		wg.Wait()
+		for w := 0; w < workers; w++ {
+			for i := range ins {
+				rep.Hist("concurrent:" + ins[i].kind)
+				if res[w][i] != seq[i] && reported < 6 {
+					reported++
+					rep.Violate(Violation{Case: i, Step: round, What: fmt.Sprintf("%s returned a different value while %d goroutines were calling the format functions at the same time (round %d, goroutine %d) than when called alone",
+						ins[i].kind, workers, round, w), Sig: "C17:concurrent-call-differs", Ops: []string{describe(&ins[i])},
+						Detail: map[string]string{"alone": hex.EncodeToString([]byte(seq[i])), "concurrent": hex.EncodeToString([]byte(res[w][i]))}})
+				}
+			}
+		}
+		rep.Ops += workers * nIn
+	}
+	rep.Notes = append(rep.Notes, fmt.Sprintf("concurrency: %d inputs evaluated alone, then by %d goroutines at once in %d rounds; interleavings are sampled, not enumerated", nIn, workers, rounds))
+}
+
 func (g *c17Gen) addr() {
 	b := g.u64()
 	out := ophosttypes.BridgeAddress(b)
@@ -578,12 +732,14 @@ func genC17(seed uint64, tier string, outdir string) *Report {
 	for i := 0; i < 110*mul; i++ {
 		g.outRoot()
 	}
+	g.denomDense()
 	for i := 0; i < 110*mul; i++ {
 		g.denom()
 	}
 	for i := 0; i < 70*mul; i++ {
 		g.addr()
 	}
+	c17Concurrent(rep, seed, tier)
 	nTrees := 7
 	if tier == "thorough" {
 		nTrees = 28
